@@ -20,6 +20,7 @@ import (
 	"os"
 	"runtime"
 	"sort"
+	"strconv"
 	"strings"
 	"sync"
 	"sync/atomic"
@@ -172,6 +173,8 @@ func (a *App) rec(e cbEv) {
 
 func (a *App) Load(n gen.Node, args ...any) (gen.ApplicationSpec, error) {
 	a.inCB.Add(1)
+	appCallbacks.Add(1)
+	defer appCallbacks.Add(1)
 	defer a.inCB.Add(-1)
 	a.rec(cbEv{Kind: "load"})
 	spec := gen.ApplicationSpec{
@@ -187,12 +190,16 @@ func (a *App) Load(n gen.Node, args ...any) (gen.ApplicationSpec, error) {
 
 func (a *App) Start(mode gen.ApplicationMode) {
 	a.inCB.Add(1)
+	appCallbacks.Add(1)
+	defer appCallbacks.Add(1)
 	defer a.inCB.Add(-1)
 	a.rec(cbEv{Kind: "start", Mode: mode})
 }
 
 func (a *App) Terminate(reason error) {
 	a.inCB.Add(1)
+	appCallbacks.Add(1)
+	defer appCallbacks.Add(1)
 	defer a.inCB.Add(-1)
 	r := "<nil>"
 	if reason != nil {
@@ -356,8 +363,32 @@ func selfDeadlockStack(me string) string {
 	return ""
 }
 
+// activityPoints: every step of a process towards running, sleeping or terminating, every
+// mailbox push and every step of an application start/stop passes one of these yield points
+var activityPoints = []string{
+	"proc.run.wake", "proc.run.enter", "proc.run.exit", "proc.run.tosleep", "proc.run.recheck", "proc.run.reacquire",
+	"proc.run.term.err", "proc.run.term.kill", "proc.run.term.panic", "proc.kill.zombie", "proc.kill.term",
+	"proc.unreg.deleted", "proc.unreg.name", "mpsc.push.swap", "mpsc.push.swapped", "app.start.spawned", "app.term.swap",
+}
+
+var appCallbacks atomic.Int64 // application callbacks begun or finished (all apps)
+
+// activity is a stamp that changes whenever anything moves in the node under test
+func activity() int64 {
+	n := appCallbacks.Load()
+	for _, p := range activityPoints {
+		n += hk.Hits(p)
+	}
+	return n
+}
+
+// quiesce waits for a consistent quiescent snapshot: one scan over all members during which
+// nothing moved (a scan alone is not atomic: a member checked early can be woken by a
+// member checked late, e.g. by the shutdown exit a dying member of a permanent application
+// sends to the others)
 func quiesce(apps ...*App) bool {
 	return hk.WaitUntil(20*time.Second, func() bool {
+		before := activity()
 		for _, a := range apps {
 			if a.inCB.Load() > 0 {
 				return false
@@ -374,7 +405,7 @@ func quiesce(apps ...*App) bool {
 				}
 			}
 		}
-		return true
+		return activity() == before
 	})
 }
 
@@ -443,6 +474,13 @@ func want(id string) bool {
 func finish(id, scenario, key string, nontrivial bool, events int64, r *result, detail any) {
 	c := hk.Case{ID: id, Scenario: scenario, Key: key, Nontrivial: nontrivial, Events: events, Detail: detail}
 	switch {
+	case r.incon != "":
+		// a watchdog or a gate deadline expired somewhere in this case: nothing observed after
+		// that point may be judged (histories record this only if nothing was decided before)
+		c.Verdict = hk.Inconclusive
+		c.What = r.incon
+		hk.Emit(c)
+		return
 	case len(r.viols) > 0:
 		bySig := map[string][]string{}
 		var order []string
@@ -609,9 +647,16 @@ func main() {
 		os.Exit(3)
 	}
 
-	runAllDirected()
-
 	n := hk.Pick(500, 6000)
+	if v, _ := strconv.Atoi(os.Getenv("C17_DEV_RESTART")); v > 0 {
+		// development aid: only the restart loops, v of them (used to hammer this family under load)
+		for k := 0; k < v; k++ {
+			runRestartLoop(k)
+		}
+		n = 0
+	} else {
+		runAllDirected()
+	}
 	for k := 0; k < n; k++ {
 		runHistory(k)
 	}
